@@ -206,16 +206,16 @@ mutual
       have h := compileSeq_sw env es ko pd pmk st a b
       sw_close
     | .peekFor e, ko, pd, pmk, st, a, b => by
-      have h := compile_sw env e ko pd pmk ⟨st.label + 1, st.sw⟩ a b
+      have h := compile_sw env e ko false false ⟨st.label + 1, st.sw⟩ a b
       sw_close
     | .peekNot e, ko, pd, pmk, st, a, b => by
-      have h := compile_sw env e st.label pd pmk ⟨st.label + 1, st.sw⟩ a b
+      have h := compile_sw env e st.label false false ⟨st.label + 1, st.sw⟩ a b
       sw_close
     | .query e, ko, pd, pmk, st, a, b => by
       have h := compile_sw env e st.label pd pmk ⟨st.label + 2, st.sw⟩ a b
       sw_close
     | .star e, ko, pd, pmk, st, a, b => by
-      have h := compile_sw env e (st.label + 1) pd pmk ⟨st.label + 2, st.sw⟩ a b
+      have h := compile_sw env e (st.label + 1) false false ⟨st.label + 2, st.sw⟩ a b
       sw_close
     | .plus e, ko, pd, pmk, st, a, b => by
       have h1 := compile_sw env e ko false false ⟨st.label + 2, st.sw⟩ a b
